@@ -27,6 +27,7 @@ only clearer of the flags:
  P7  ownership: two variables must not share one boundary-condition object whose flag either of them clears
      (scenario interpreted symbolically: edit shared BCs, solve both)
  P6  a variable produced by solveExplicitPDE has (or lazily gets) the cache before solvePDE reads it (C04.S7)
+ P8u update_value and the value setter copy the data: afterwards the variable shares no storage with its source
  P8  copy() and arithmetic results own deep copies of the BCs and fresh arrays (C14.O4/O6)
 """
 from __future__ import annotations
@@ -43,7 +44,7 @@ from .c12 import flat_vector
 PROP = 'C09'
 RULES = {'P1': 'BoundaryFace mutators raise the dirty flag', 'P2': 'writers of _value raise the flag or recompute', 'P3': 'TrackedArray flag semantics',
          'P4': 'solvePDE never uses a stale cached boundary term when a flag is set', 'P4e': 'solveExplicitPDE entered dirty keeps the invariant for its input variable', 'P5': 'apply_BCs recomputes then clears', 'P6': 'cache defined before use',
-         'P7': 'no shared boundary-condition object between variables', 'P8': 'copies / arithmetic results independent', 'P9': 'only apply_BCs/__init__ clear the flags'}
+         'P7': 'no shared boundary-condition object between variables', 'P8': 'copies / arithmetic results independent', 'P9': 'only apply_BCs/__init__ clear the flags', 'P8u': 'update_value / value setter leave no shared storage'}
 ASSUMPTIONS = ["numpy's `base` of a view of a TrackedArray is the TrackedArray it was sliced from (views of views collapse to the owner): library behaviour, not decided",
                'the interpreter models TrackedArray item assignment by exactly the behaviour P3 proves for the real class']
 
@@ -240,6 +241,28 @@ def job(args):
     new = w.call('pdesolver', 'solveExplicitPDE', old, Rat.atom(('dt',)), flat_vector(w, 'rhs'))
     ob('P7', 'pdesolver.solveExplicitPDE/shared-BC-object', new.attrs.get('BCs') is not old.attrs.get('BCs'),
        "the variable returned by solveExplicitPDE holds the very BoundaryConditions object of its input (shared dirty flag)" if new.attrs.get('BCs') is old.attrs.get('BCs') else "BCs not shared", fe.loc())
+    # P8u update_value / value setter copy the data: no storage shared with the source afterwards
+    from .c14 import boxes_of
+    for how in ('update_value', 'value-setter'):
+        a_ = w.cell_variable('A', w.boundary_conditions(name='bcA'))
+        b_ = w.cell_variable('B', w.boundary_conditions(name='bcB'))
+        a_.attrs['_value'].frozen = None           # the target is meant to be written
+        try:
+            if how == 'update_value':
+                w.interp.call_function(cv.methods['update_value'], [a_, b_], self_obj=a_)
+                src = boxes_of(b_, skip=('domain', 'BCs'))
+            else:
+                arr = Box(atom_array(('arr',), w.N, offset=tuple(ONE for _ in w.N)))
+                arr.frozen = 'arr'
+                w.interp.set_attr(a_, 'value', arr, None)
+                src = boxes_of(arr)
+            mine = boxes_of(a_, skip=('domain', 'BCs'))
+            shared = [k for k in mine if k in src]
+            ob('P8u', f"cell.CellVariable.{how}", not shared,
+               f"after {how} the variable shares storage {shared[:3]} with its source: an in-place edit of either changes the other" if shared
+               else f"{how} copies the values (no shared storage)", cv.methods['update_value'].loc())
+        except AbstractRaise as e:
+            ob('P8u', f"cell.CellVariable.{how}", False, f"raises {e.exc}: {e.msg}", cv.methods['update_value'].loc())
     # P4e solveExplicitPDE entered dirty: the invariant must hold for the *input* variable afterwards
     for bdirty, vd in ((True, False), (True, True), (False, True)):
         bc = w.boundary_conditions()
